@@ -14,7 +14,7 @@ let () =
           | Some h -> (try h f with
                        | Stack_overflow -> "MODEL-STACK-OVERFLOW"
                        | Failure m -> "MODEL-FAILURE " ^ m) in
-        print_string out; print_char '\n'
+        print_string out; print_char '\n'; flush stdout
       end
     done
   with End_of_file -> ()
